@@ -5,6 +5,7 @@ against the Lean row model `Mir.ChordCompare.cmp` on the (root, bitmap, bass) tr
 `mir_eval.chord.encode` (the label parser / encoder is another slice: C10).
 Oracles: the lattice relations and vocabularies asserted directly on the real functions.
 """
+import numpy as np
 import mir_eval
 import mir_eval.chord
 
@@ -111,6 +112,19 @@ def _scores(ref, est):
 
 def check_lattice(inp):
     ref, est, est2 = inp["ref"], inp["est"], inp["est2"]
+    if inp.get("warm"):
+        # the rule applied as the first call of a process vs. after the labels went through the segmentation step of
+        # chord.evaluate (merge_chord_intervals encodes them with reduce_extended_chords=True): the same values
+        from props._relational import fresh_library
+        fresh_library("chord")
+        cold = _scores(ref, est)
+        fresh_library("chord")
+        mir_eval.chord.merge_chord_intervals(np.array([[0.0, 1.0], [1.0, 2.0], [2.0, 3.0]]), [ref, est, est2])
+        warm = _scores(ref, est)
+        for r in cl.RULES:
+            if cold[r] != warm[r]:
+                return ("%s(%r, %r) = %r as a first call but %r after merge_chord_intervals saw the same labels: the "
+                        "value depends on call history, not on the labels" % (r, ref, est, cold[r], warm[r]))
     s = _scores(ref, est)
     s2 = _scores(ref, est2)
     ss = _scores(ref, ref)
@@ -201,7 +215,10 @@ def _gen_pairs(rng, tier, shard, nshards, boost, n_quick, n_thorough, third):
 
 
 def gen_lattice(rng, tier, shard, nshards, boost):
-    return _gen_pairs(rng, tier, shard, nshards, boost, 16000, 200000, True)
+    for d in _gen_pairs(rng, tier, shard, nshards, boost, 16000, 200000, True):
+        if rng.random() < 0.04:
+            d["warm"] = True
+        yield d
 
 
 def gen_vocab(rng, tier, shard, nshards, boost):
